@@ -97,6 +97,31 @@ KeyOK(k) == \/ (k[1] = 1 /\ Len(k) = 5 /\ k[2] \in 1..NF /\ \A i \in 3..5 : k[i]
             \/ (k[1] = 3 /\ Len(k) = 5 /\ k[2] \in 1..NF /\ k[3] \in 1..NF /\ k[2] # k[3] /\ k[4] \in 1..3 /\ k[5] \in 1..3)
 NKeys == NF * 64 + 4 * 2 * 64 * 2 + NF * (NF - 1) * 9
 
+\* ---------------------------------------------------------------- Merge yields a fresh value (frame property)
+\* In TLA+ Merge(lo, hi) is a value: nothing done later can change it and computing it changes neither
+\* operand.  The Go function must behave the same although its lists are slices that may share a
+\* backing array (ConfigHeap.tla models exactly that and shows that only a fresh allocation does).
+\* Frame scenarios: one lower configuration (both ignore lists = list number lo of Conc, built with or
+\* without spare capacity), merged with two or three higher configurations (list numbers hs[j]);
+\* key <<lo, build, h1, h2, h3>>, h3 = 0: only two merges.
+ListCfg(i) == [Base EXCEPT !["defIgnores"] = Conc["defIgnores"][i], !["ignores"] = Conc["ignores"][i]]
+FrameHighers(k) == IF k[5] = 0 THEN <<k[3], k[4]>> ELSE <<k[3], k[4], k[5]>>
+FrameKeyOK(k) == Len(k) = 5 /\ k[1] \in 1..4 /\ k[2] \in 1..3 /\ k[3] \in 1..4 /\ k[4] \in 1..4 /\ k[5] \in 0..4
+NFrameKeys == 4 * 3 * 4 * 4 * 5
+FrameExpected(k, j) == Concrete(Merge(ListCfg(k[1]), ListCfg(FrameHighers(k)[j])))
+\* on observations: r.lower, r.highers: the operands as built; r.first[j]: result j read right after its
+\* merge; r.after[j], r.lowerAfter, r.highersAfter: everything read again after all merges; part B (a
+\* replica of the scenario): r.firstB[j]; r.resMut: operands and the other results read after result 1
+\* was overwritten in place and appended to; r.opMut: the other results read after every operand was
+\* overwritten in place and appended to.
+C37_MergeFresh(r) ==
+  /\ \A j \in DOMAIN r.first : /\ r.after[j] = r.first[j]
+                                /\ \A f \in Lists : r.first[j][f] = r.lower[f] \o r.highers[j][f]
+  /\ r.lowerAfter = r.lower /\ r.highersAfter = r.highers
+  /\ r.resMut.lower = r.lower /\ r.resMut.highers = r.highers
+  /\ \A j \in 2..Len(r.firstB) : r.resMut.results[j - 1] = r.firstB[j] /\ r.opMut.results[j - 1] = r.firstB[j]
+  /\ r.firstB = r.first
+
 \* ---------------------------------------------------------------- text forms of the mode enumerations
 \* MarshalText names by enum number (index = number + 1; "" = no text form)
 TextNames == [sync |-> <<"", "two-way-safe", "two-way-resolved", "one-way-safe", "one-way-replica">>,
